@@ -124,7 +124,13 @@ def module_source(fam, sub=None):
         out = HEADER + ["LOG = []", ""]
     else:
         out = HEADER + ["from %s import *" % fam["mod"]]
-        out += ["from %s.%s import *" % (fam["mod"], x) for x in subs[: subs.index(sub)]] + [""]
+        out += ["from %s.%s import *" % (fam["mod"], x) for x in subs[: subs.index(sub)]]
+        # `import *` leaves out underscore names: private classes / functions defined earlier are imported by name
+        for src in [None] + subs[: subs.index(sub)]:
+            priv = [n["name"] for n in fam["classes"] + fam["funcs"] if n["name"].startswith("_") and where.get(n["name"]) == src]
+            if priv:
+                out.append("from %s import %s" % (fam["mod"] + ("." + src if src else ""), ", ".join(priv)))
+        out.append("")
     for c in fam["classes"]:
         if where.get(c["name"]) == sub:
             out += _class_source(fam, c)
